@@ -303,7 +303,9 @@ fn blob_call(id: u64, target: usize, kind: u64) -> (Vec<u8>, usize, String) {
 pub async fn scenario_c08() {
 	const P: &str = "C08";
 	rt::expect_panic_marker(world::PANIC_MARKER);
-	let resp_limit = *rt::pick("resp_limit", &[256u32, 1000, 4096, 65536]);
+	// (tiny limits: the reply `{"jsonrpc":"2.0","id":7,"result":false}` of an unsubscribe call is 39 bytes)
+	let tiny = rt::chance("tiny_limit", 1, 6);
+	let resp_limit = if tiny { *rt::pick("tiny_resp_limit", &[38u32, 39, 40]) } else { *rt::pick("resp_limit", &[256u32, 1000, 4096, 65536]) };
 	let req_a = *rt::pick("req_a", &[1000u32, 4096, 65536]);
 	let req_b = if req_a == 65536 { 4096 } else { 65536 };
 	let entry = *rt::pick("entry", &[Entry::Tower, Entry::LowLevel, Entry::Default]);
@@ -316,7 +318,7 @@ pub async fn scenario_c08() {
 		let id = i as u64 + 1;
 		let delta = rt::draw("delta", 7) as i64 - 3;
 		let target = (l as i64 + delta) as usize;
-		if rt::chance("panic_result", 1, 8) {
+		if !tiny && rt::chance("panic_result", 1, 8) {
 			// a blocking handler that panics with a long message: the reply is the library's fixed "Internal error"
 			let reply = format!("{{\"jsonrpc\":\"2.0\",\"id\":{id},\"error\":{{\"code\":-32603,\"message\":\"Internal error\"}}}}");
 			singles.push((id, format!("{{\"jsonrpc\":\"2.0\",\"id\":{id},\"method\":\"bpanicn\",\"params\":[{}]}}", target).into_bytes(), reply.len(), "panic".to_string(), true));
@@ -329,6 +331,12 @@ pub async fn scenario_c08() {
 			let (m, len, blob) = blob_call(id, target, rt::draw("kind", 3) as u64);
 			singles.push((id, m, len, blob, false));
 		}
+	}
+	if tiny {
+		// an unsubscribe call naming no live subscription: answered `false` (WebSocket only)
+		let id = 7u64;
+		let reply = format!("{{\"jsonrpc\":\"2.0\",\"id\":{id},\"result\":false}}");
+		singles.push((id, format!("{{\"jsonrpc\":\"2.0\",\"id\":{id},\"method\":\"unsub\",\"params\":[12345]}}").into_bytes(), reply.len(), "unsub-false".to_string(), false));
 	}
 	// a batch whose total straddles the limit
 	let n_entries = rt::draw_range("n_entries", 1, 5) as usize;
@@ -379,22 +387,48 @@ pub async fn scenario_c08() {
 		list.push(batch_text.clone().into_bytes());
 		list.push(len_call(999, 60));
 		let (frames, _alive) = ws_exchange(&mut world, &format!("w{wi}"), list, false).await;
-		let http_batch = world::collect_response(world.tower_call(world::post_request(batch_text.clone().into_bytes())).await).await;
+		// HTTP: directly at the tower service, or over a connection (which, for the low-level assembly, goes through
+		// `http::call_with_service_builder`)
+		let over_conn = rt::chance("http_over_connection", 1, 2);
+		let mut http_post = async |world: &mut World, body: Vec<u8>, label: String| -> world::HttpReply {
+			if over_conn {
+				let (end, _c) = world.connect(&label);
+				match world::http_handshake(end).await {
+					Ok(mut p) => p.post(body, Some("application/json")).await.unwrap_or(world::HttpReply { status: 599, body: vec![] }),
+					Err(_) => world::HttpReply { status: 599, body: vec![] },
+				}
+			} else {
+				world::collect_response(world.tower_call(world::post_request(body)).await).await
+			}
+		};
+		let http_batch = http_post(&mut world, batch_text.clone().into_bytes(), format!("hb{wi}")).await;
 		let mut http_singles = Vec::new();
-		for s in &singles {
-			http_singles.push(world::collect_response(world.tower_call(world::post_request(s.1.clone())).await).await);
+		for (k, s) in singles.iter().enumerate() {
+			if s.3 == "unsub-false" {
+				// (subscription methods are not served over HTTP: the answer would be the library's fixed "Internal
+				// error" object, which is larger than these tiny limits - limits below the size of the library's own
+				// error objects are otherwise not generated)
+				http_singles.push(world::HttpReply { status: 200, body: vec![] });
+				continue;
+			}
+			http_singles.push(http_post(&mut world, s.1.clone(), format!("hs{wi}-{k}")).await);
 		}
 		let mut summary = Vec::new();
 		// --- wire-length monitor ---
 		let too_big = |f: &[u8]| matches!(parse_response(f), Ok((_, Err(-32008))) | Ok((_, Err(-32011))));
 		for f in frames.iter().chain(std::iter::once(&http_batch.body)).chain(http_singles.iter().map(|r| &r.body)) {
 			if f.len() > l && !too_big(f) {
-				rt::violate(P, "oversized-reply-sent", format!("{entry:?}"), format!("a reply of {} bytes was sent although max_response_body_size is {resp_limit}: {}...", f.len(), String::from_utf8_lossy(f).chars().take(100).collect::<String>()));
+				// one of the library's own fixed error objects (no handler data) above a limit that is smaller than they are
+				let fixed_error = f.len() <= 100 && matches!(parse_response(f), Ok((_, Err(-32603 | -32600 | -32601 | -32602 | -32700)))) && !String::from_utf8_lossy(f).contains("\"data\"");
+				rt::violate(P, "oversized-reply-sent", if fixed_error { "fixed-library-error-above-tiny-limit".to_string() } else { format!("{entry:?}") }, format!("a reply of {} bytes was sent although max_response_body_size is {resp_limit}: {}...", f.len(), String::from_utf8_lossy(f).chars().take(100).collect::<String>()));
 			}
 		}
 		// --- singles ---
 		for (k, (id, _m, len, blob, is_err)) in singles.iter().enumerate() {
 			for (transport, reply) in [("ws", frames.iter().find(|f| matches!(parse_response(f), Ok((i, _)) if i == json!(*id))).cloned()), ("http", Some(http_singles[k].body.clone()))] {
+				if blob == "unsub-false" && transport == "http" {
+					continue;
+				}
 				let Some(reply) = reply else {
 					rt::violate(P, "missing-reply", transport.to_string(), format!("no reply to call {id} (expected response length {len}, limit {resp_limit})"));
 					continue;
@@ -404,6 +438,7 @@ pub async fn scenario_c08() {
 				if *len <= l {
 					// fits (exactly at the limit included): sent unchanged
 					let unchanged = match (&parsed, is_err) {
+						(Ok((_, Ok(v))), false) if blob == "unsub-false" => *v == json!(false) && reply.len() == *len,
 						(Ok((_, Ok(v))), false) => v.as_str() == Some(blob.as_str()) && reply.len() == *len,
 						(Ok((_, Err(c))), true) if blob == "panic" => *c == -32603 && reply.len() == *len,
 						(Ok((_, Err(c))), true) => *c == -32051 && reply.len() == *len,
